@@ -125,9 +125,9 @@ func (s *CDX) Serialize(bom *sbom.Document, _ *native.SerializeOptions, _ interf
 		var authors []cdx.OrganizationalContact
 		for _, bomauthor := range bom.GetMetadata().GetAuthors() {
 			authors = append(authors, cdx.OrganizationalContact{
-				Name:  bomauthor.Name,
-				Email: bomauthor.Email,
-				Phone: bomauthor.Phone,
+				Name:  bomauthor.GetName(),
+				Email: bomauthor.GetEmail(),
+				Phone: bomauthor.GetPhone(),
 			})
 		}
 		metadata.Authors = &authors
@@ -137,8 +137,8 @@ func (s *CDX) Serialize(bom *sbom.Document, _ *native.SerializeOptions, _ interf
 		var tools []cdx.Tool //nolint:staticcheck
 		for _, bomtool := range bom.GetMetadata().GetTools() {
 			tools = append(tools, cdx.Tool{ //nolint:staticcheck // Tool is needed for older cdx versions
-				Name:    bomtool.Name,
-				Version: bomtool.Version,
+				Name:    bomtool.GetName(),
+				Version: bomtool.GetVersion(),
 			})
 		}
 		metadata.Tools = &cdx.ToolsChoice{
@@ -213,6 +213,9 @@ func (s *CDX) componentsMaps(ctx context.Context, bom *sbom.Document) error {
 	}
 
 	for _, n := range bom.NodeList.Nodes {
+		if n == nil {
+			continue
+		}
 		comp := s.nodeToComponent(n)
 		if comp == nil {
 			// Error? Warn?
@@ -388,6 +391,9 @@ func (s *CDX) nodeToComponent(n *sbom.Node) *cdx.Component {
 
 	if n.ExternalReferences != nil {
 		for _, er := range n.ExternalReferences {
+			if er == nil {
+				continue
+			}
 			cdxRef := cdx.ExternalReference{
 				URL:     er.Url,
 				Comment: er.Comment,
@@ -435,7 +441,7 @@ func (s *CDX) nodeToComponent(n *sbom.Node) *cdx.Component {
 		oe := cdx.OrganizationalEntity{
 			Name: nodesupplier.GetName(),
 		}
-		if nodesupplier.Contacts != nil {
+		if nodesupplier.GetContacts() != nil {
 			var contacts []cdx.OrganizationalContact
 			for _, nodecontact := range nodesupplier.GetContacts() {
 				newcontact := cdx.OrganizationalContact{
